@@ -342,3 +342,8 @@ CHECKS = [
           rule='all 22 shipped configurations x seeds x <=200 (1000 thorough) actions: per-step conservation and constant inventory over each episode',
           required=['cfg:gv_keydoor.7x7', 'cfg:gv_dynamic_obstacles.7x7', 'grid_changed']),
 ]
+
+
+from vgv import worldedit  # noqa: E402
+
+CHECKS.append(worldedit.make_check('C09'))
